@@ -170,7 +170,6 @@ def check_identity_term(idx: Index, rep: Report):
     if not top or not top[0].orelse:
         raise AnalysisError("identity-term branch not found")
     check_operator_circuit(idx, rep)
-    check_trotterize_covariance(idx, rep)
     # a non-identity term is skipped only when its coefficient is (numerically) zero: multiples of pi are NOT skippable, exp(-i k pi P) = (-1)^k
     guards = [n for n in ast.walk(top[0]) if isinstance(n, ast.If) and any("exp_pauliword_to_gates" in norm(x) for x in n.body) and "coef" in norm(n.test)]
     if guards:
@@ -320,12 +319,15 @@ def check_suzuki(idx: Index, rep: Report):
                     what="order 1 and even orders are accepted, odd orders above one are refused")
 
 
-def check_trotterize_covariance(idx: Index, rep: Report):
-    """trotterize folded as a whole on qubit operators (the exponentiating generator replaced by a recorder): the evolution depends on coefficient x time only,
-    so what reaches the generator - operator and time taken together - is coefficient x time / n_steps for EVERY term of the input, however small the
-    coefficient is by itself (an operator in small units evolved for a long time; one weak term next to strong ones).  Scalar time and per-term times."""
+def check_trotterize(idx: Index, rep: Report):
+    """trotterize folded as a whole, for qubit and for fermionic operators (the exponentiating generator and the encoder replaced by recorders).  The evolution
+    depends on coefficient x time only, so what reaches the generator - operator and time taken together - is coefficient x time / n_steps for EVERY term of
+    the input, however small the coefficient is by itself (an operator in small units evolved for a long time; one weak term next to strong ones); scalar
+    time and per-term times; the step circuit is repeated n_steps times and its phase raised to that power; order, control and the variational flag reach
+    the generator as given.  Decided on what is computed, not on how the statements are laid out or what the locals are called."""
     rule = "K8.trotterize-scaling"
     f = idx.function(f"{AU}::trotterize")
+    PH = sp.Symbol("phase_of_one_step")
 
     class _QOp:
         """qubit operator stand-in with openfermion's compress()"""
@@ -340,141 +342,107 @@ def check_trotterize_covariance(idx: Index, rep: Report):
         def __deepcopy__(self, memo):
             return _QOp(self.terms)
 
+    class _FOp:
+        """fermionic operator stand-in: FermionOperator(), FermionOperator(term, coefficient), +="""
+        _sa_model = True
+
+        def __init__(self, term=None, coefficient=1.):
+            self.terms = {} if term is None else {tuple(term): coefficient}
+
+        def __iadd__(self, o):
+            for k, v in o.terms.items():
+                self.terms[k] = self.terms.get(k, 0) + v
+            return self
+
+        def __add__(self, o):
+            return self.__deepcopy__({}).__iadd__(o)
+
+        def __deepcopy__(self, memo):
+            r = _FOp()
+            r.terms = dict(self.terms)
+            return r
+
     class _StepCircuit:
         _sa_model = True
 
+        def __init__(self, reps=1):
+            self.reps = reps
+
         def __mul__(self, n):
-            return self
+            return _StepCircuit(self.reps * n)
         __rmul__ = __mul__
-    seen = []
+    seen, mapped = [], []
 
     def recorder(a, k):
         names = ["qubit_op", "time", "variational", "trotter_order", "control", "return_phase", "pauli_order"]
         kw = dict(zip(names, a))
         kw.update(k)
         seen.append(kw)
-        return (_StepCircuit(), 1.0) if kw.get("return_phase") else _StepCircuit()
+        return (_StepCircuit(), PH) if kw.get("return_phase") else _StepCircuit()
+
+    def encoder(a, k):
+        op = k.get("fermion_operator", a[0] if a else None)
+        mapped.append(dict(k))
+        return _QOp(op.terms)
 
     def hook(v, t):
         if "Qubit" in t:
             return isinstance(v, _QOp)
         if "Fermion" in t:
-            return False
+            return isinstance(v, _FOp)
         return None
     wz, wx, wy = ((0, "Z"),), ((1, "X"),), ((0, "Y"), (1, "Y"))
-    cases = [("coefficients of order one", {wz: 0.25, wx: -0.5}, 0.8, 2), ("an operator in small units evolved for a long time", {wz: 4e-9, wx: -2e-9}, 1e8, 4),
-             ("one weak term next to strong ones", {wz: 0.7, wx: 3e-9, wy: 0.2}, 5e7, 1), ("per-term times", {wz: 4e-9, wx: 0.5}, {wz: 1e8, wx: 0.4}, 2)]
+    fa, fb = ((0, 1), (0, 0)), ((1, 1), (0, 0))
+    cases = [("qubit operator, coefficients of order one", _QOp, {wz: 0.25, wx: -0.5}, 0.8, 2, 1, None, False),
+             ("qubit operator in small units evolved for a long time", _QOp, {wz: 4e-9, wx: -2e-9}, 1e8, 4, 2, 3, False),
+             ("qubit operator, one weak term next to strong ones", _QOp, {wz: 0.7, wx: 3e-9, wy: 0.2}, 5e7, 1, 1, [2, 3], True),
+             ("qubit operator, per-term times", _QOp, {wz: 4e-9, wx: 0.5}, {wz: 1e8, wx: 0.4}, 2, 2, None, False),
+             ("fermionic operator, scalar time", _FOp, {fa: 0.25, fb: -0.5}, 0.8, 3, 1, 2, False),
+             ("fermionic operator, per-term times", _FOp, {fa: 0.25, fb: -0.5}, {fa: 0.8, fb: 0.3}, 2, 2, None, True)]
     n = 0
-    for label, terms, time, steps in cases:
+    for label, kind, terms, time, steps, order, control, variational in cases:
         del seen[:]
-        fo = cs.make_folder(idx, AU, ctors={"get_exponentiated_qubit_operator_circuit": recorder})
-        fo.isinstance_hook = hook
-        try:
-            fo.run_function(f.node, {"operator": _QOp(terms), "time": time, "n_trotter_steps": steps, "trotter_order": 1, "variational": False,
-                                     "mapping_options": dict(), "control": None, "return_phase": True})
-        except Undecidable as e:
-            raise AnalysisError(f"trotterize not foldable ({label}): {e}")
-        except Raised as e:
-            n += 1
-            rep.violation(rule, f, f.node, text=f"trotterize, {label}", what="a qubit operator with a time is trotterized", reason=f"raises {e.exc_type}")
-            continue
-        if len(seen) != 1 or not isinstance(seen[0].get("qubit_op"), _QOp):
-            raise AnalysisError(f"trotterize ({label}): the call of the exponentiating generator was not recorded ({len(seen)} calls)")
-        got_op, got_t = seen[0]["qubit_op"].terms, seen[0]["time"]
-        bad = []
-        for w, c in terms.items():
-            want = c * (time[w] if isinstance(time, dict) else time) / steps
-            tw = got_t.get(w) if isinstance(got_t, dict) else got_t
-            have = None if w not in got_op or tw is None else got_op[w] * tw
-            if have is None or abs(have - want) > 1e-9 * max(1.0, abs(want)):
-                bad.append(f"term {w}: coefficient x time reaching the generator is {have}, expected {want:g}")
-        n += 1
-        rep.decide(not bad and set(got_op) == set(terms), rule, f, f.node, text=f"trotterize on a qubit operator, {label}: {len(terms)} terms, {steps} step(s)",
-                   what="every term of the operator reaches the exponentiating generator with coefficient x time / n_steps - the evolution depends on the product only, so no "
-                        "term is dropped because its coefficient alone is small",
-                   reason="; ".join(bad[:2]) or f"terms reaching the generator: {sorted(got_op)}")
-    rep.floor("trotterize folds on qubit operators", n, 4)
-
-
-def check_trotterize(idx: Index, rep: Report):
-    rule = "K8.trotterize-scaling"
-    f = idx.function(f"{AU}::trotterize")
-    t, nst, cf = sp.Symbol("time", real=True), sp.Symbol("n_trotter_steps", positive=True), sp.Symbol("coef", real=True)
-    rets = [n for n in own_nodes(f.node) if isinstance(n, ast.Assign) and norm(n.targets[0]) == "return_value"]
-    if not rets:
-        raise AnalysisError("trotterize: return_value assignment not found")
-    C, PH = sp.Symbol("circuit", commutative=False), sp.Symbol("phase")
-    got = {}
-    for rp in (True, False):
-        fo = Folder(env={"circuit": C, "phase": PH, "n_trotter_steps": nst, "return_phase": rp})
-        try:
-            got[rp] = fo.expr(rets[0].value)
-        except (Undecidable, Raised) as e:
-            got[rp] = f"not foldable: {e}"
-    ok = isinstance(got[True], tuple) and len(got[True]) == 2 and got[True][0] == C * nst and sp.simplify(got[True][1] - PH ** nst) == 0 and got[False] == C * nst
-    rep.decide(ok, rule, f, rets[0], text="circuit * n_steps, phase ** n_steps", what="one step is repeated n_steps times and its phase raised to that power",
-               reason=f"return value is {got[True]} with the phase, {got[False]} without")
-    fbranch = None
-    for n in ast.walk(f.node):
-        if isinstance(n, ast.If) and "ofFermionOperator" in norm(n.test):
-            fbranch = n
-    if fbranch is None:
-        raise AnalysisError("trotterize: branch on the operator type not found")
-    sites = []
-    for n in ast.walk(ast.Module(body=fbranch.orelse, type_ignores=[])):
-        if isinstance(n, ast.Assign) and norm(n.targets[0]) == "evolve_time" and "n_trotter_steps" in norm(n.value):
-            sites.append(n)
-    # qubit operator, scalar time
-    scal = [s for s in sites if not isinstance(s.value, ast.DictComp)]
-    ok = bool(scal) and symx.equal(symx.to_sympy(scal[0].value, {"time": t, "n_trotter_steps": nst}), t / nst)
-    rep.decide(ok, rule, f, scal[0] if scal else f.node, text="qubit operator, scalar time: step time = time / n_steps", what="each step evolves for time/n_steps",
-               reason=f"{norm(scal[0].value) if scal else '?'}")
-    dc = [s for s in sites if isinstance(s.value, ast.DictComp)]
-    ok = bool(dc) and norm(dc[0].value.key) == "term" and symx.equal(symx.to_sympy(dc[0].value.value, {"etime": t, "n_trotter_steps": nst}), t / nst) and \
-        norm(dc[0].value.generators[0].iter) == "time.items()"
-    rep.decide(ok, rule, f, dc[0] if dc else f.node, text="qubit operator, per-term times: each term's time / n_steps", what="with a time dictionary every term evolves for its own time/n_steps",
-               reason=f"{norm(dc[0].value) if dc else '?'}")
-    # fermionic branch, per path (scalar time / per-term times): the coefficient handed to the mapping is coefficient * time / n_steps
-    fer = [n for n in ast.walk(f.node) if isinstance(n, ast.AugAssign) and norm(n.target) == "new_operator"]
-    ev_defs = []
-    for n in ast.walk(ast.Module(body=fbranch.body, type_ignores=[])):
-        if isinstance(n, ast.Assign) and norm(n.targets[0]) == "evolve_time":
-            ev_defs.append(n)
-    ok_paths = {}
-    if fer and isinstance(fer[0].value, ast.Call) and len(fer[0].value.args) == 2 and norm(fer[0].value.args[0]) == "term":
-        for d in ev_defs:
-            v = d.value
+        del mapped[:]
+        op = kind()
+        op.terms = dict(terms)
+        for return_phase in (True, False):
+            del seen[:]
+            fo = cs.make_folder(idx, AU, ctors={"get_exponentiated_qubit_operator_circuit": recorder, "fermion_to_qubit_mapping": encoder,
+                                                "FermionOperator": lambda a, k: _FOp(*a, **k)})
+            fo.isinstance_hook = hook
             try:
-                if isinstance(v, ast.DictComp) and norm(v.generators[0].iter) == "time.items()" and isinstance(v.generators[0].target, ast.Tuple):
-                    per_term = symx.to_sympy(v.value, {norm(v.generators[0].target.elts[1]): t, "n_trotter_steps": nst})
-                    kind = "per-term times"
-                elif isinstance(v, ast.DictComp):
-                    per_term = symx.to_sympy(v.value, {"time": t, "n_trotter_steps": nst})
-                    kind = "scalar time"
-                elif isinstance(v, ast.Call) and norm(v.func) in ("deepcopy", "copy.deepcopy", "dict") and norm(v.args[0]) == "time":
-                    per_term = t                       # evolve_time[term] is the caller's time for that term
-                    kind = "per-term times"
-                else:
-                    raise symx.Untranslatable(norm(v))
-                eff = symx.to_sympy(fer[0].value.args[1], {"operator.terms[term]": cf, "evolve_time[term]": per_term, "n_trotter_steps": nst})
-                ok_paths[kind] = (symx.equal(eff, cf * t / nst), str(sp.simplify(eff)))
-            except symx.Untranslatable as e:
-                ok_paths[f"? {norm(v)[:30]}"] = (False, f"not understood: {e}")
-    for kind in ("scalar time", "per-term times"):
-        okk, eff = ok_paths.get(kind, (False, "path not found"))
-        rep.decide(okk, rule, f, fer[0] if fer else f.node, text=f"fermionic operator, {kind}: coefficient * time / n_steps",
-                   what="for fermionic input each step evolves every term for its time / n_steps (folded into the coefficient before mapping)",
-                   reason=f"effective coefficient on this path is {eff}")
-    calls = [n for n in ast.walk(f.node) if isinstance(n, ast.Call) and norm(n.func) == "get_exponentiated_qubit_operator_circuit"]
-    rep.floor("exponentiation calls in trotterize", len(calls), 2)
-    for c in calls:
-        kws = {k.arg: norm(k.value) for k in c.keywords}
-        fermionic = kws.get("time") in ("1.0", "1")
-        ok = kws.get("trotter_order") == "trotter_order" and kws.get("control") == "control" and kws.get("variational") == "variational" and \
-            kws.get("return_phase") == "True" and (fermionic or kws.get("time") == "evolve_time")
-        rep.decide(ok, rule, f, c, text=f"exponentiate(qubit_op, time={kws.get('time')}, order, control, return_phase=True)",
-                   what="order, control and the phase request are handed to the exponentiation; time is 1 when already folded in, else the step time",
-                   reason=f"keywords {kws}")
+                out = fo.run_function(f.node, {"operator": op, "time": time, "n_trotter_steps": steps, "trotter_order": order, "variational": variational,
+                                               "mapping_options": dict(), "control": control, "return_phase": return_phase})
+            except Undecidable as e:
+                raise AnalysisError(f"trotterize not foldable ({label}): {e}")
+            except Raised as e:
+                n += 1
+                rep.violation(rule, f, f.node, text=f"trotterize, {label}", what="an operator with a time is trotterized", reason=f"raises {e.exc_type}")
+                break
+            if len(seen) != 1 or not isinstance(seen[0].get("qubit_op"), _QOp):
+                raise AnalysisError(f"trotterize ({label}): the call of the exponentiating generator was not recorded ({len(seen)} calls)")
+            got_op, got_t = seen[0]["qubit_op"].terms, seen[0]["time"]
+            bad = []
+            for w, c in terms.items():
+                want = c * (time[w] if isinstance(time, dict) else time) / steps
+                tw = got_t.get(w) if isinstance(got_t, dict) else got_t
+                have = None if w not in got_op or tw is None else got_op[w] * tw
+                if have is None or abs(have - want) > 1e-9 * max(1.0, abs(want)):
+                    bad.append(f"term {w}: coefficient x time reaching the generator is {have}, expected {want:g}")
+            if set(got_op) != set(terms):
+                bad.append(f"terms reaching the generator: {sorted(got_op)}")
+            circ, ph = (out if return_phase else (out, None))
+            if not isinstance(circ, _StepCircuit) or circ.reps != steps or (return_phase and sp.simplify(sp.sympify(ph) - PH ** steps) != 0):
+                bad.append(f"returns the step circuit x {getattr(circ, 'reps', '?')} with phase {ph}; expected x {steps} and (phase of one step) ** {steps}")
+            if (seen[0].get("trotter_order"), seen[0].get("control"), seen[0].get("variational")) != (order, control, variational) or not seen[0].get("return_phase"):
+                bad.append(f"the generator receives order / control / variational = {seen[0].get('trotter_order')} / {seen[0].get('control')} / {seen[0].get('variational')}, "
+                           f"given {order} / {control} / {variational}")
+            n += 1
+            rep.decide(not bad, rule, f, f.node, text=f"trotterize, {label}: {len(terms)} terms, {steps} step(s), order {order}, control {control}, return_phase={return_phase}",
+                       what="every term reaches the exponentiating generator with coefficient x time / n_steps (no term is dropped because its coefficient alone is small); the "
+                            "step is repeated n_steps times, its phase raised to that power; order, control and the variational flag are handed on",
+                       reason="; ".join(bad[:2]))
+    rep.floor("trotterize folds", n, 10)
 
 
 def check_time_dictionary(idx: Index, rep: Report):
